@@ -40,6 +40,11 @@ from . import rtypes
 from .common import DTS, SimError, contains_cancel, is_cancel, pick, rpause
 from .rtypes import CATALOGUE, NAMES, TYPES
 
+import sys as _sys
+
+if _sys.version_info < (3, 11):  # pragma: no cover
+    from exceptiongroup import BaseExceptionGroup
+
 NAME = "resources"
 PROPS = ("C02", "C03", "C04", "C18", "C19")
 SENTINEL = "__sentinel__"
@@ -54,6 +59,15 @@ def tname(t: Any) -> str:
 
 
 # =============================================================================== harness
+def _exc_leaves(e: BaseException) -> list:
+    if isinstance(e, BaseExceptionGroup):
+        out: list = []
+        for x in e.exceptions:
+            out.extend(_exc_leaves(x))
+        return out
+    return [e]
+
+
 class _Ballast:
     pass
 
@@ -92,6 +106,9 @@ class H:
         self.keep: list[Any] = []
         self.nval = 0
         self.nlook = 0
+        self.last_added: dict[str, tuple] = {}
+        self.reqarg: dict[str, int] = {}
+        self.fac_callables: dict[str, tuple] = {}
         self.obs_types = [TYPES[t] for t in TNAMES] + [TYPES["LocalT"]]
         self.obs_names = list(TNAMES) + ["LocalT"]
 
@@ -253,7 +270,12 @@ class H:
             self.observe()
             if contains_cancel(e) or sim.aborting:
                 raise
-            sim.log("note", what="block_exc", exc=f"{type(e).__name__}: {str(e)[:120]}")
+            lv = _exc_leaves(e)
+            if self.reqarg.get(cid) and all(type(x) is TypeError for x in lv) and len(lv) == self.reqarg[cid]:
+                # exactly the callbacks that cannot be called without an argument failed
+                sim.log("note", what="reqarg_callbacks_failed", n=len(lv))
+            else:
+                sim.log("note", what="block_exc", exc=f"{type(e).__name__}: {str(e)[:120]}")
         else:
             sim.log("ctx_exit", ctx=cid, exc=None)
             self.observe()
@@ -351,19 +373,45 @@ class H:
             cls = TYPES[spec.get("cls", "A")]
             value = self.newval("v", cls if isinstance(cls, type) else rtypes.A)
         name = spec.get("name", "default")
+        if spec.get("reuse") and types and not bad:
+            # the very same object once more - under the key it already holds (here or in an
+            # ancestor it was inherited from) plus, usually, further types
+            c_: Any = ctx
+            while c_ is not None and self.cid(c_) not in self.last_added:
+                c_ = c_.parent
+            if c_ is not None:
+                value, name, old_types = self.last_added[self.cid(c_)]
+                types = list(dict.fromkeys([old_types[0]] + types))
         kwargs: dict[str, Any] = {}
         tdid = None
-        if spec.get("td"):
-            tdid = "td_" + self.vtag(value)
+        if spec.get("td") == "reqarg" and not bad:
+            # a callable all right, but one that cannot be called the way teardown calls it:
+            # accepted now, a TypeError raised by that callback when the context is left
+            def needs_arg(required: Any) -> None:
+                pass
 
-            late = spec.get("late_add")
+            kwargs["teardown_callback"] = needs_arg
+        elif spec.get("td"):
+            tdid = "td_" + self.vtag(value) + (f"_{self.nval}" if spec.get("reuse") else "")
 
-            def cb(tdid: str = tdid, tgt: str = tgt) -> None:
-                sim.log("td_run", ctx=tgt, td=tdid)
-                if late:
-                    # publish from inside the teardown of the very context
-                    self.do_add({**late, "target": tgt}, tgt)
-                    self.observe()
+            late = spec.get("late") or ([["add", spec["late_add"]]] if spec.get("late_add") else [])
+
+            if any(a[0] != "add" for a in late):
+
+                async def cb(tdid: str = tdid, tgt: str = tgt) -> None:
+                    sim.log("td_run", ctx=tgt, td=tdid)
+                    # lookups, injected calls, publications and new child contexts from
+                    # inside the teardown of the very context
+                    await self.acts([[a[0], {**a[1], "target": tgt}] if a[0] in ("add", "get") else a for a in late], tgt)
+
+            else:
+
+                def cb(tdid: str = tdid, tgt: str = tgt) -> None:  # type: ignore[misc]
+                    sim.log("td_run", ctx=tgt, td=tdid)
+                    for a in late:
+                        # publish from inside the teardown of the very context
+                        self.do_add({**a[1], "target": tgt}, tgt)
+                        self.observe()
 
             kwargs["teardown_callback"] = cb
         if spec.get("desc"):
@@ -402,7 +450,17 @@ class H:
         except Exception as e:
             sim.log("add_end", ctx=tgt, res="error", cls=type(e).__name__)
         else:
-            sim.log("add_end", ctx=tgt, res="ok")
+            vis = []
+            for t in types:
+                try:
+                    vis.append(ctx.get_resources(t).get(name) is value)
+                except Exception:  # noqa: BLE001
+                    vis.append(None)
+            sim.log("add_end", ctx=tgt, res="ok", visible=vis)
+            if types and not bad:
+                self.last_added[tgt] = (value, name, list(types))
+            if spec.get("td") == "reqarg" and not bad:
+                self.reqarg[tgt] = self.reqarg.get(tgt, 0) + 1
         _scribble(typearg)
 
     def make_factory(self, spec: dict) -> Any:
@@ -484,6 +542,16 @@ class H:
         types = [TYPES[t] for t in spec["types"] if t in TYPES]
         name = spec.get("name", "default")
         bad = spec.get("bad")
+        if spec.get("same_as"):
+            # the very callable of an earlier (successful) registration in this context,
+            # for the same name and at least the same types: every pair is taken
+            prev = self.fac_callables.get((tgt, spec["same_as"]))
+            if prev is None:
+                return
+            fac, name, ptypes = prev
+            spec = {**spec, "name": name, "types": list(dict.fromkeys(list(ptypes) + list(spec["types"])))}
+            spec.pop("annot", None)
+            types = [TYPES[t] for t in spec["types"] if t in TYPES]
         kwargs: dict[str, Any] = {}
         if not spec.get("annot"):
             kwargs["types"] = types if not (len(types) == 1 and spec.get("single")) else types[0]
@@ -518,6 +586,8 @@ class H:
             sim.log("fac_end", ctx=tgt, res="error", cls=type(e).__name__)
         else:
             sim.log("fac_end", ctx=tgt, res="ok")
+            if not bad and not spec.get("same_as"):
+                self.fac_callables[(tgt, spec["fid"])] = (fac, name, list(spec["types"]))
         _scribble(kwargs.get("types"))
         # probe the keys the call asked for without generating anything the model does not
         # expect: the oracle decides from the model whether each probe should have missed
@@ -843,6 +913,9 @@ def oracle(sim: Sim, plan: dict) -> list[dict]:
                     )
                 if invalid:
                     v("C03.invalid", f"accepted:{bad or 'name'}", f"invalid add_resource ({bad or 'bad name'}) accepted")
+                if d.get("visible") is not None and not all(x is True for x in d["visible"]) and not invalid:
+                    v("C02.own", "added_not_visible", f"add_resource({b['types']},{b['name']!r}) on {b['ctx']} returned normally but the object is not visible there under all of these types ({d['visible']})")
+                    v("C03.atomic", "accepted_partially", f"add_resource({b['types']},{b['name']!r}) on {b['ctx']} returned normally but registered only part of its types ({d['visible']})")
                 entry = {"val": b["val"], "types": tuple(b["types"]), "name": b["name"], "gen": False}
                 for k in keys:
                     m.static[k] = entry
@@ -1188,6 +1261,7 @@ class G:
         self.nfac = 0
         self.ntask = 0
         self.max_ctx = 8 if tier == "quick" else 12
+        self.facs_in: dict[str, list] = {}
         w_inj = 3.0 if prop == "C19" else 0.8
         w_fac = 2.5 if prop in ("C04", "C19") else 1.2
         w_bad = 1.6 if prop in ("C03", "C18") else 0.4
@@ -1222,12 +1296,43 @@ class G:
                 spec["falsy"] = True
             if not types:
                 spec["cls"] = rng.choice([t for t in self.tn if t != "L"] or ["A"])
+            if types and rng.random() < 0.06:
+                spec["reuse"] = True
             if rng.random() < 0.3:
                 spec["td"] = True
-                if rng.random() < 0.35:
-                    spec["late_add"] = {"types": self.types(0.2), "name": rng.choice(self.names), "desc": "late"}
-                    if rng.random() < 0.5:
-                        spec["late_add"]["td"] = True
+                if rng.random() < 0.06:
+                    spec["td"] = "reqarg"
+                elif rng.random() < 0.4:
+                    late: list = []
+                    for _ in range(rng.choice((1, 1, 2))):
+                        k = pick(rng, {"add": 5, "get": 2.5, "inj": 2.0 if self.prop == "C19" else 0.7, "child": 1.2})
+                        if k == "add":
+                            la: dict[str, Any] = {"types": self.types(0.2), "name": rng.choice(self.names), "desc": "late"}
+                            if rng.random() < 0.5:
+                                la["td"] = True
+                            late.append(["add", la])
+                        elif k == "get":
+                            late.append(["get", {"type": rng.choice(self.tn), "name": rng.choice(self.names), "api": rng.choice(("get", "nowait", "nowait"))}])
+                        elif k == "inj":
+                            late.append(["inj", {"fn": rng.choice(sorted(CATALOGUE)), "posx": rng.random() < 0.5}])
+                        elif self.nctx < self.max_ctx:
+                            # a context created (and used) while its parent is being torn down
+                            self.nctx += 1
+                            late.append(
+                                [
+                                    "child",
+                                    {
+                                        "id": f"x{self.nctx}",
+                                        "parent": rng.choice(("implicit", "explicit")),
+                                        "body": [
+                                            ["get", {"type": rng.choice(self.tn), "name": rng.choice(self.names), "api": rng.choice(("get", "nowait"))}]
+                                            for _ in range(rng.randint(0, 2))
+                                        ]
+                                        + [["getres", {"type": rng.choice(self.tn)}]],
+                                    },
+                                ]
+                            )
+                    spec["late"] = late
             if rng.random() < 0.2:
                 spec["desc"] = f"d{rng.randint(1, 9)}"
             if rng.random() < 0.3:
@@ -1240,6 +1345,10 @@ class G:
             return ["add", spec]
         if op == "fac":
             self.nfac += 1
+            mine = self.facs_in.get(lineage[-1]) or []
+            if mine and rng.random() < 0.08:
+                # the same callable registered once more for (at least) the same pairs
+                return ["fac", {"fid": f"f{self.nfac}", "same_as": rng.choice(mine), "types": self.types(0.4), "name": "-", "kind": "sync"}]
             kind = "async" if rng.random() < (0.6 if self.prop == "C04" else 0.45) else "sync"
             spec = {
                 "fid": f"f{self.nfac}",
@@ -1250,6 +1359,8 @@ class G:
             if kind == "async":
                 spec["ticks"] = rng.choice((0, 1, 2))
                 spec["dur"] = rng.choice(DTS[:5])
+                if rng.random() < 0.06:
+                    spec["dur"] = rng.choice((6.0, 12.0))  # a really slow one
                 if rng.random() < 0.35:
                     spec["wrap"] = rng.choice(("lambda", "callable"))
             if rng.random() < 0.15:
@@ -1270,6 +1381,8 @@ class G:
             t = self.anc(lineage)
             if t:
                 spec["target"] = t
+            else:
+                self.facs_in.setdefault(lineage[-1], []).append(spec["fid"])
             return ["fac", spec]
         if op == "get":
             spec = {
